@@ -245,6 +245,46 @@ VIEWS_RULE = ("TLC explores sequences of convenience setters and raw option call
               "prior states, generic copies, prepared replies and applied errors are judged by Trace_Views. A case is one emitted "
               "transition or one recorded event.")
 
+# ------------------------------------------------------------------------------ C08-C12, C20 block handler
+def _block_traces(ctx, drivers, props, bins=None):
+    bins = bins or (ctx.build("dev"), ctx.build("release"))
+    for drv in drivers:
+        for b in bins:
+            tr, _ = ctx.record(b, drv, name="%s-%s" % (drv, os.path.basename(b)))
+            ctx.validate("Trace_BlockHandler", tr, props, label="%s-%s" % (drv, os.path.basename(b)), timeout=2400)
+            rm(tr)
+
+
+def c08(ctx):
+    _block_traces(ctx, ["block2", "budget"], {"C08"})
+
+
+def c09(ctx):
+    _block_traces(ctx, ["block1", "budget"], {"C09"})
+
+
+def c10(ctx):
+    _block_traces(ctx, ["budget", "block2"], {"C10"})
+
+
+def c11(ctx):
+    _block_traces(ctx, ["hostile"], {"C11"})
+
+
+def c12(ctx):
+    _block_traces(ctx, ["isolation", "hostile"], {"C12"})
+
+
+def c20(ctx):
+    _block_traces(ctx, ["expiry"], {"C20"})
+
+
+BLOCK_RULE = ("Recorded calls of intercept_request / intercept_response (arguments, outcome, prepared reply, rewritten request "
+              "payload, cache snapshot through the cfg(coap_lite_verif) hook, monotonic time before/after) are validated one by one "
+              "by Trace_BlockHandler against the operators of BlockHandler.tla; transfer-level summaries (reassembled body, number of "
+              "application calls, solo vs interleaved responses, reclaimed endpoints) are validated as well. A case is one recorded "
+              "transfer / sequence (episode).")
+
 TABLE_RULE = ("TLC evaluates the specification operator over the whole finite domain (one state per table key), checks the "
               "round-trip / well-formedness theorems in every state and emits the complete expected table; every row is "
               "compared with the real code in dev and release builds. A case is one table row; rows are distinct by key.")
@@ -264,6 +304,12 @@ CHECKS = {
     "C06": (c06, {"rule": TABLE_RULE + " Typed getters/setters on a message are additionally recorded after random typed builder calls and validated by Trace_Wire element by element."}),
     "C07": (c07, {"rule": VIEWS_RULE}),
     "C19": (c19, {"rule": VIEWS_RULE}),
+    "C08": (c08, {"rule": BLOCK_RULE}),
+    "C09": (c09, {"rule": BLOCK_RULE}),
+    "C10": (c10, {"rule": BLOCK_RULE}),
+    "C11": (c11, {"rule": BLOCK_RULE}),
+    "C12": (c12, {"rule": BLOCK_RULE}),
+    "C20": (c20, {"rule": BLOCK_RULE}),
     "C13": (c13, {"rule": TABLE_RULE}),
     "C16": (c16, {"rule": LINK_RULE}),
     "C17": (c17, {"rule": LINK_RULE}),
